@@ -90,6 +90,7 @@ func vC05sNoDuplicateIDs(c *Context) (distinct, selfConsistent bool) {
 // verif:outside interleavings with more preemptions than the bound or more than 2 goroutines; preemption inside a critical section at points other than map accesses and atomics (field loads/stores of shared objects are not preemption points: data-race freedom of the code between sync points is assumed, not checked); sync.Pool is a per-path LIFO; natively the replay is a stress repetition (8 goroutines x 3000 rounds), not a controlled schedule
 func VerifH_C05_O9_concurrent_same_type() {
 	verif.Schedules(vC05sBound())
+	verif.Races(true)
 	kind := verif.Choose("kind", 6)
 	rounds := verif.NativeRounds(3000)
 	G := verif.NativeInt(2, 8)
@@ -148,6 +149,7 @@ func vC05sNamedPair(c *Context, name string, inner Type) Type {
 // verif:outside as VerifH_C05_O9_concurrent_same_type; names bound by the zson analyzer/zngio decoder to a context shared between concurrently read inputs follow the same DecodeTypeValue/LookupTypeNamed path but are not driven here
 func VerifH_C05_O10_concurrent_name_rebinding() {
 	verif.Schedules(vC05sBound())
+	verif.Races(true)
 	shape := verif.Choose("shapeB", 3)
 	rounds := verif.NativeRounds(3000)
 	c := NewContext()
